@@ -27,6 +27,9 @@ def to_sf_schema(schema: pa.Schema, rowtype: list[ColumnInfo]) -> pa.Schema:
             field = field.with_type(pa.struct(fields))
         elif isinstance(field.type, pa.Time64Type):
             field = field.with_type(pa.int64())
+        elif pa.types.is_uint64(field.type):
+            # the connector doesn't read unsigned integers, send as a FIXED decimal
+            field = field.with_type(pa.decimal128(38, 0))
 
         return field.with_metadata(
             {
@@ -64,6 +67,8 @@ def to_sf(table: pa.Table, rowtype: list[ColumnInfo]) -> pa.Table:
         elif pa.types.is_time(col.type):
             # as nanoseconds
             return pc.multiply(col.cast(pa.int64()), 1000)  # type: ignore https://github.com/zen-xu/pyarrow-stubs/issues/44
+        elif pa.types.is_uint64(col.type):
+            return col.cast(pa.decimal128(38, 0))
         return col
 
     return pa.Table.from_arrays([to_sf_col(c) for c in table.columns], schema=to_sf_schema(table.schema, rowtype))
